@@ -39,6 +39,12 @@ CLAIMED = {
    text='Bounded model checking of what distribution relies on: for every graph and every contiguous chunk [s,e) the chunk kernels return exactly the slice of the serial defining sum, and the n.s.i. betweenness kernel is additive over every split of the target range (all labelled graphs up to the bound, symbolic weights and source masks).',
    note='Bounds: chunk kernels n<=4 (5), target splits on all graphs n<=4 (5). Real MPI transport/pickling outside; master-block arithmetic and protocol are separate obligations once present in evidence.',
    ref="DESIGN.md §3 C19"),
+ "C02": dict(
+   engine="P",
+   technique="symbolic execution of the real (decorated) Network methods on z3-term proxies inside NumPy object arrays with scipy.sparse/igraph stand-ins patched into the module globals; node-splitting invariance decided by z3 (QF_NRA) per measure, variant, node and topology; sat models replayed with the real splitted_copy",
+   text="Bounded model checking: every nsi_* measure of Network found by introspection (with its key / typical_weight variants, directed variants where implemented) is executed symbolically on a network and on its split (weights>0, proportion in (0,1), link attributes>0 symbolic). Degree-type measures use symbolic adjacency bits, rational measures of higher degree and path-based measures are decided per concrete labelled topology (all graphs up to the bound). z3 shows the equalities the statement demands (global, per node incl. both twins, pairwise on untouched pairs).",
+   note="Bounds: bits n<=4 undirected / n<=3 directed; all labelled topologies n<=4 (5 thorough). Exact reals; shims validated against the unpatched library on SmallTestNetwork for every measure and variant each run. Outside: eigenvector centrality, spreading, histograms, Arenas/Newman random-walk betweenness.",
+   ref="DESIGN.md §3 C02"),
 }
 NA_DEFAULT = "check not built yet in this round (see DESIGN.md §6 for the planned obligation)"
 def main():
@@ -66,6 +72,8 @@ def main():
                    "baseline_off_cmd": "cd /repo && /venv/bin/python -m pytest -ra -q -p no:cacheprovider --timeout=900 --continue-on-collection-errors",
                    "source_commits": [], "add_only": True},
          "engines": [
+           {"name": "P", "path": "vf/pe.py", "serves_properties": sorted(k for k,v in CLAIMED.items() if "P" in v["engine"]),
+            "kind_free_text": "proxy-value symbolic execution of the real Python methods (SV/SB scalars in object ndarrays, sparse/igraph stand-ins, exhaustive forking explorer with solver feasibility checks), z3 back end"},
            {"name": "K", "path": "vf/kern.py", "serves_properties": sorted(k for k,v in CLAIMED.items() if "K" in v["engine"]),
             "kind_free_text": "guarded state-merging symbolic interpreter over Cython's parse tree of the repo's numerics.pyx (+ clang JSON AST for src_numerics.c), z3 back end"},
          ],
